@@ -215,12 +215,18 @@ impl LruDiskCache {
     }
 
     fn make_space(&mut self, size: u64) -> Result<()> {
-        if !self.can_store(size) {
+        // Space reserved by in-flight `prepare_add` entries cannot be reclaimed
+        // by evicting, so refuse up front rather than empty the cache in vain.
+        if !self.can_store(size) || self.pending_size + size > self.capacity() {
             return Err(Error::FileTooLarge);
         }
         //TODO: ideally LRUCache::insert would give us back the entries it had to remove.
         while self.size() + size > self.capacity() {
-            let (rel_path, _) = self.lru.remove_lru().expect("Unexpectedly empty cache!");
+            let (rel_path, _) = match self.lru.remove_lru() {
+                Some(entry) => entry,
+                // Nothing left to evict; refuse instead of panicking.
+                None => return Err(Error::FileTooLarge),
+            };
             let remove_path = self.rel_to_abs_path(rel_path);
             //TODO: check that files are removable during `init`, so that this is only
             // due to outside interference.
@@ -332,13 +338,12 @@ impl LruDiskCache {
         // Ensure we have enough space for the advertized space.
         self.make_space(size)?;
         let key = key.as_ref().to_owned();
+        let file = tempfile::Builder::new()
+            .prefix(TEMPFILE_PREFIX)
+            .tempfile_in(&self.root)?;
         self.pending.push(key.clone());
         self.pending_size += size;
-        tempfile::Builder::new()
-            .prefix(TEMPFILE_PREFIX)
-            .tempfile_in(&self.root)
-            .map(|file| LruDiskCacheAddEntry { file, key, size })
-            .map_err(Into::into)
+        Ok(LruDiskCacheAddEntry { file, key, size })
     }
 
     /// Commit an entry coming from `LruDiskCache::prepare_add`.
@@ -348,17 +353,19 @@ impl LruDiskCache {
             key,
             size,
         } = entry;
-        file.flush()?;
-        let real_size = file.as_file().metadata()?.len();
-        // If the file is larger than the size that had been advertized, ensure
-        // we have enough space for it.
-        self.make_space(real_size.saturating_sub(size))?;
+        // The reservation ends here whether or not the commit succeeds,
+        // otherwise a failed commit would leak it forever.
         self.pending
             .iter()
             .position(|k| k == &key)
             .map(|i| self.pending.remove(i))
             .unwrap();
         self.pending_size -= size;
+        file.flush()?;
+        let real_size = file.as_file().metadata()?.len();
+        // The file may be larger than the size that had been advertized, ensure
+        // we have enough space for what was really written.
+        self.make_space(real_size)?;
         let path = self.rel_to_abs_path(&key);
         fs::create_dir_all(path.parent().unwrap())?;
         file.persist(path).map_err(|e| e.error)?;
